@@ -142,6 +142,67 @@ theorem keepalive_after_silence (a : Assoc) (now : Nat) (t : Task) (h : a.nextLi
 theorem keepalive_deadline (a : Assoc) (now : Nat) :
     (a.onLinkActivity now).nextLinkStatus = a.cfg.ka.map (now + ·) := rfl
 
+/-
+`keepalive_credit`: the silence that `keepalive_after_silence` measures is the silence of THAT
+association: a received fragment (or link status frame) re-arms the keep-alive deadline of the
+association it comes from, and of no other — in every session mode.  (Finding D25, repaired: while
+a non-READ request was outstanding the unchanged code credited every received fragment to the
+request's destination; regression `harness/corpus/C19/master_D25.ops`.)  `kaView s` lists
+(address, keep-alive deadline) of all associations.
+-/
+
+/-- crediting `src` at time `now` sets the deadline of `src`'s association to `now + keep_alive`
+    and leaves every other deadline alone -/
+theorem keepalive_credit_view (s : MState) (src : Nat) :
+    kaView (notifyLinkActivity (s, []) src).1 =
+      s.assocs.map fun x => (x.addr, if x.addr = src then x.cfg.ka.map (s.now + ·) else x.nextLinkStatus) :=
+  Proofs.Master.notify_kaView s src
+
+/-- whatever else a parsed fragment causes (unsolicited handling, ending or continuing the task in
+    flight), the deadlines afterwards are those of "credit the source" — in EVERY online mode,
+    including the wait of a non-READ task -/
+theorem keepalive_credit_to_source (s : MState) (src : Nat) (frag : List Nat) (r : Resp)
+    (hp : parseResponse frag = some r) (hon : match s.mode with | .offline | .exited => False | _ => True) :
+    kaView (onFragment (s, []) src frag).acc.1 =
+      s.assocs.map fun x => (x.addr, if x.addr = src then x.cfg.ka.map (s.now + ·) else x.nextLinkStatus) := by
+  rw [Proofs.Master.fragment_credits_source s src frag r hp hon, Proofs.Master.notify_kaView]
+
+/-- the same through the whole step of the model (scheduler, next task, session end included) -/
+theorem keepalive_credit_to_source_step (s : MState) (src dst : Nat) (frag : List Nat) (r : Resp)
+    (hdst : dst = masterAddr) (hsrc : src < 0xFFF0) (hne : frag ≠ []) (hlen : frag.length ≤ 2048)
+    (hp : parseResponse frag = some r) (hon : match s.mode with | .offline | .exited => False | _ => True) :
+    kaView (Master.step s (.rx src dst frag)).1 =
+      s.assocs.map fun x => (x.addr, if x.addr = src then x.cfg.ka.map (s.now + ·) else x.nextLinkStatus) := by
+  rw [Proofs.Master.step_rx_credits_source s src dst frag r hdst hsrc hne hlen hp hon, Proofs.Master.notify_kaView]
+
+/-- nothing is credited for a fragment that does not parse, or when no session runs -/
+theorem keepalive_no_credit (s : MState) (src : Nat) (frag : List Nat)
+    (h : parseResponse frag = none ∨ (match s.mode with | .offline | .exited => True | _ => False)) :
+    kaView (onFragment (s, []) src frag).acc.1 = kaView s := by
+  rcases h with h | h
+  · exact Proofs.Master.fragment_unparsed_no_credit s src frag h
+  · exact Proofs.Master.fragment_offline_no_credit s src frag h
+
+/-- a link status frame from `src` credits `src` -/
+theorem keepalive_credit_linkmsg (s : MState) (src : Nat)
+    (hon : match s.mode with | .offline | .exited => False | _ => True) :
+    kaView (onLinkMsg (s, []) src).acc.1 =
+      s.assocs.map fun x => (x.addr, if x.addr = src then x.cfg.ka.map (s.now + ·) else x.nextLinkStatus) := by
+  rw [Proofs.Master.linkmsg_credits_source s src hon, Proofs.Master.notify_kaView]
+
+/-- regression for D25 (repaired): cold restart to 1024 outstanding (non-READ wait), at t = 2000 an
+    unsolicited null response arrives from 1025 (keep-alive 3000): 1025's deadline moves to 5000,
+    1024 (no keep-alive) is untouched.  Before the repair 1025 kept its deadline 3000 and got a
+    keep-alive although it had just been heard. -/
+def d25State : MState :=
+  { now := 2000,
+    assocs := [{ addr := 1024, cfg := { rto := 5000, dis := 0, int := 0, en := 0 }, seq := 1 },
+               { addr := 1025, cfg := { rto := 1000, dis := 0, int := 0, en := 0, ka := some 3000 }, nextLinkStatus := some 3000 }],
+    ring := [1025, 1024], mode := .waitNonRead 1024 (.restart 1 true) 0 13 7000, live := 1 }
+
+theorem keepalive_credit_d25_regression :
+    kaView (Master.step d25State (.rx 1025 1 [0xF0, 0x82, 0x00, 0x00])).1 = [(1024, none), (1025, some 5000)] := by decide
+
 -- ------------------------------------------------------------------------------------------
 -- the scheduler cannot spin
 -- ------------------------------------------------------------------------------------------
